@@ -570,7 +570,7 @@ func checkC13(c C13Case) (bool, *Violation) {
 		}
 		if ws.Model.Kind == "panic" {
 			// every panic of the history (the inserted one and those of the base history) addresses the current channel
-			if bv := checkPanicBurst(i, ws); bv != nil {
+			if bv := checkPanicBurst(i, ws, prevChannel(ww, i)); bv != nil {
 				return true, bv
 			}
 			if origin[i] >= 0 {
@@ -582,7 +582,7 @@ func checkC13(c C13Case) (bool, *Violation) {
 			if c.ViaAxis != 0 {
 				// the panic action triggered by an axis owes the same burst as the panic key
 				classify("panic triggered by an axis")
-				if bv := checkPanicBurst(i, ws); bv != nil {
+				if bv := checkPanicBurst(i, ws, prevChannel(ww, i)); bv != nil {
 					bv.Message = "panic triggered by pushing the hat bound to the panic action: " + bv.Message
 					return true, bv
 				}
@@ -640,9 +640,10 @@ func checkC13(c C13Case) (bool, *Violation) {
 	return nontrivialHeld && laterSamePitch, nil
 }
 
-func checkPanicBurst(i int, ws *walkStep) *Violation {
+// checkPanicBurst: ch is the channel the device itself reported (State()) right before the panic: "the device's current
+// channel" also in histories for which the reference model has no opinion (a third action pressed while a pair is held).
+func checkPanicBurst(i int, ws *walkStep, ch int) *Violation {
 	out := ws.Res.Out
-	ch := ws.Pre.Channel
 	seenOff := [128]bool{}
 	cc := false
 	for _, m := range out {
@@ -665,6 +666,13 @@ func checkPanicBurst(i int, ws *walkStep) *Violation {
 		}
 	}
 	return nil
+}
+
+func prevChannel(w *walk, i int) int {
+	if i == 0 {
+		return int(w.Run.Initial.Channel)
+	}
+	return int(w.Run.Steps[i-1].State.Channel)
 }
 
 func prevState(w *walk, i int) interface{} {
